@@ -10,7 +10,10 @@ import Bng.Proof.NatKern
     * `dealloc ip`  : DeallocateNAT of an allocated address: deletes `subscriber_nat[ip]` and (fix ac77db8 of finding
                       G6-nat-stale-sessions) every session, reverse entry and EIM mapping of `ip`;
     * `egress`/`ingress clk f` : one run of nat44_egress / nat44_ingress on ANY frame (the byte-level model of C07,
-                      including session and EIM creation and the 64-step port search).
+                      including session and EIM creation and the 64-step port search);
+    * `deallocFail ip` : DeallocateNAT when the kernel refuses the Delete of `subscriber_nat[ip]`: since fix e3c019a of finding
+                      C10-delete-failure-frees-block the call fails before touching anything (the block stays allocated in
+                      the manager as well: Spec.C10 `failed_delete_keeps_block`, `kernel_mirrors_table`).
   Theorems quantify over ALL operation sequences from empty maps, all frames, configurations (`cfg`: EIM, parity, ALG …
   flags) and clock values.
 -/
@@ -97,6 +100,23 @@ theorem old_release_witness :
     have := (inBlockB_iff block1 0xc61212c6 0xd007).mpr hin
     revert this
     decide
+
+/-- Finding C10-delete-failure-frees-block, on the manager as it was before fix e3c019a (`runOldDel`: a failing Delete
+    was only logged; the sessions were purged, the block counted free and — Spec.C10 `old_failed_delete_witness` — handed
+    to the next subscriber): k1's entry stays in subscriber_nat next to k2's entry for the SAME block; k1's next packet
+    opens a new session on port 2001 and k2's on port 2000 of that block — two subscribers behind one block, which no
+    block record can tell apart. -/
+theorem old_failed_delete_kernel_witness :
+    let m := runOldDel {} [.alloc k1 block0, .egress 0 flow, .deallocFail k1, .alloc k2 block0]
+    (match AMap.lookup m.subNat k1, AMap.lookup m.subNat k2 with
+     | some b₁, some b₂ => blocksOverlap b₁ b₂
+     | _, _ => false) = true ∧
+    (egress m 0 flow).toOption.map (fun o => rd16 o.frame 34) = some (bswap16 2001) := by
+  decide
+
+/-- the same history on the manager as it is: the failed release changes nothing, k1's flow keeps its session and port -/
+example : (egress (run {} [.alloc k1 block0, .egress 0 flow, .deallocFail k1]) 0 flow).toOption.map
+    (fun o => rd16 o.frame 34) = some (bswap16 2000) := by decide
 
 /-- the same history with the fixed DeallocateNAT: the flow gets a fresh session inside k1's new block -/
 example : (egress (run {} history) 0 flow).toOption.map (fun o => rd16 o.frame 34) = some (bswap16 2004) := by decide
